@@ -515,10 +515,13 @@ def main():
     sub.add_parser("setup")
     a = ap.parse_args()
     if a.cmd == "setup":
-        w, err = build(False)
-        if w is None:
-            print(err); return 1
-        print("built", w); return 0
+        # warm the build cache for all three worker builds (normal, race, virtual clock)
+        for kw in ({}, {"race": True}, {"faketime": True}):
+            w, err = build(**kw)
+            if w is None:
+                print(err); return 1
+            print("built", w)
+        return 0
     if a.cmd == "replay":
         return cmd_replay(a.path)
     if a.prop not in PROPS:
